@@ -5,6 +5,7 @@ package autofile
 import (
 	"bytes"
 	"io"
+	"os"
 
 	vp "github.com/tendermint/tendermint/internal/verifvp"
 )
@@ -75,3 +76,53 @@ func vpC15Limits(k int) {
 func VP_C15_Limits_k4() { vpC15Limits(4) }
 func VP_C15_Limits_k5() { vpC15Limits(5) }
 func VP_C15_Limits_k6() { vpC15Limits(6) }
+
+// C15 (rotation + reopen at any index width): a group directory whose rotated files start at index
+// `base` (the boundaries of the decimal width of the %03d suffix) is reopened, read, rotated once
+// more and reopened again: every record is read back exactly once, in order, and the head is the
+// file after the highest rotated one.
+func VP_C15_ReopenAtIndex() {
+	dir := vp.TempDir()
+	bases := []int{0, 8, 98, 997, 998, 999, 1000, 9998, 99998}
+	base := bases[vp.Choice("first-rotated-index", len(bases))]
+	if err := os.WriteFile(filePathForIndex(dir+"/wal", base, base+2), []byte("aaaa"), 0o600); err != nil {
+		panic(err)
+	}
+	if err := os.WriteFile(filePathForIndex(dir+"/wal", base+1, base+2), []byte("bbbb"), 0o600); err != nil {
+		panic(err)
+	}
+	if err := os.WriteFile(dir+"/wal", []byte("cccc"), 0o600); err != nil {
+		panic(err)
+	}
+	readAll := func(g *Group) []byte {
+		gr, err := g.NewReader(g.MinIndex())
+		vp.Assert(err == nil, "C15.reopen.reader-opens-at-the-oldest-file")
+		got, err := io.ReadAll(gr)
+		vp.Assert(err == nil, "C15.reopen.reader-reads-to-the-end")
+		gr.Close()
+		return got
+	}
+	g, err := OpenGroup(dir + "/wal")
+	vp.Assert(err == nil, "C15.reopen.group-reopens")
+	vp.Assert(g.MinIndex() == base && g.MaxIndex() == base+2, "C15.reopen.indices-recomputed-from-the-directory(any-decimal-width)")
+	vp.Assert(bytes.Equal(readAll(g), []byte("aaaabbbbcccc")), "C15.reopen.every-record-read-back-once-in-order")
+	if _, err := g.Write([]byte("dddd")); err != nil {
+		panic(err)
+	}
+	if err := g.FlushAndSync(); err != nil {
+		panic(err)
+	}
+	g.RotateFile()
+	if _, err := g.Write([]byte("eeee")); err != nil {
+		panic(err)
+	}
+	if err := g.FlushAndSync(); err != nil {
+		panic(err)
+	}
+	g.Close()
+	g2, err := OpenGroup(dir + "/wal")
+	vp.Assert(err == nil, "C15.reopen.group-reopens")
+	vp.Assert(g2.MinIndex() == base && g2.MaxIndex() == base+3, "C15.reopen.indices-recomputed-from-the-directory(any-decimal-width)")
+	vp.Assert(bytes.Equal(readAll(g2), []byte("aaaabbbbccccddddeeee")), "C15.reopen.rotation-after-reopen-loses-and-overwrites-nothing")
+	vp.Reach("read-back")
+}
